@@ -55,7 +55,7 @@ def configs(tier):
             out.append({'name': '%s-%s' % (fam, shp), 'family': fam, 'shape': shp, 'nmax': nmax})
     for fam in TWO_INDEX:
         for shp in ('3', '2x3', 'kxk'):
-            out.append({'name': '%s-%s' % (fam, shp), 'family': fam, 'shape': shp, 'pool': 6 if q else 8,
+            out.append({'name': '%s-%s' % (fam, shp), 'family': fam, 'shape': shp, 'pool': 7 if q else 10,
                         'nlists': 6 if q else 12})
     return out
 
@@ -73,8 +73,8 @@ def shape_for(code, k):
     return {'0d': (), '3': (3,), '2x3': (2, 3), 'kxk': (k, k), '2x2x2': (2, 2, 2)}[code]
 
 
-POOL_ZERNIKE = [(0, 0), (1, 1), (1, -1), (2, 0), (2, -2), (3, 1), (4, 0), (3, -3)]
-POOL_Q2D = [(0, 0), (1, 0), (0, 1), (1, -1), (2, 2), (0, -2), (2, 0), (1, 3)]
+POOL_ZERNIKE = [(0, 0), (1, 1), (1, -1), (2, 0), (3, 1), (2, -2), (3, -1), (4, 0), (3, -3), (5, 1)]
+POOL_Q2D = [(0, 0), (4, 1), (0, 1), (5, -1), (2, 2), (0, -2), (1, -1), (2, 0), (1, 3), (6, 1)]
 POOL_XY = [(0, 0), (1, 0), (0, 1), (2, 1), (0, 3), (3, 0), (1, 1), (2, 2)]
 
 
